@@ -18,8 +18,8 @@ RULE = (
     "{None, identifier}. Every schema-supplied string carries a unique sentinel token between metacharacters. Oracle: no "
     "exception; flat form: nodes with a condition are in bijection with the sub-tree's rules (same condition object and "
     "doc); each non-root node's parent precedes it and is its path prefix; nested form flattened has the same nodes; "
-    "required flags equal the model's set; HTML parsed with html.parser under a strict tag stack (only div, section, span, "
-    "h1-h6, a, code, p; every tag closed in order), no sentinel ever appears as markup or unescaped, doc text of "
+    "required flags equal the model's set; HTML parsed with html.parser under a strict tag stack (every tag a real HTML "
+    "element and closed in order), no sentinel ever appears as a tag, as an attribute or unescaped, doc text of "
     "non-elided nodes is present. Non-trivial: depth>=2, >=1 key named by both allowed_keys and required_keys, and >=1 "
     "doc string containing a metacharacter."
 )
@@ -30,8 +30,16 @@ ASSUMPTIONS = [
 ]
 
 META = ['<', '&', '"', "'", '`', ' ', '>', '</div>', '<!--', '&amp;', '\\', '%5B']
-ALLOWED_TAGS = {"div", "section", "span", "h1", "h2", "h3", "h4", "h5", "h6", "a", "code", "p"}
-ALLOWED_ATTRS = {"class", "id", "title", "href", "data-node-path"}
+# any HTML element may be used by the renderer; what must never appear is a tag or attribute
+# that comes from schema-supplied text (the sentinels: <ZQ7k x="1"> ...)
+HTML_ELEMENTS = set("""a abbr address article aside b blockquote body br button caption cite code col colgroup dd del
+details dfn div dl dt em figcaption figure footer h1 h2 h3 h4 h5 h6 head header hr html i img ins kbd label li main mark
+nav ol p pre q s samp section small span strong sub summary sup table tbody td tfoot th thead time tr u ul var wbr""".split())
+VOID_ELEMENTS = {"br", "hr", "img", "wbr", "col"}
+
+
+def foreign_attr(name):
+    return name == "x" or "zq" in name.lower() or not name.replace("-", "").replace("_", "").isalnum()
 
 
 class Tok:
@@ -163,16 +171,19 @@ class StrictParser(HTMLParser):
         self.attr_values = []
 
     def handle_starttag(self, tag, attrs):
-        if tag not in ALLOWED_TAGS:
+        if tag not in HTML_ELEMENTS:
             self.errors.append(f"unknown tag <{tag}>")
         for k, v in attrs:
-            if k not in ALLOWED_ATTRS:
+            if foreign_attr(k):
                 self.errors.append(f"unknown attribute {k!r} on <{tag}>")
             self.attr_values.append(v or "")
-        self.stack.append(tag)
+        if tag not in VOID_ELEMENTS:
+            self.stack.append(tag)
 
     def handle_startendtag(self, tag, attrs):
-        self.errors.append(f"self-closing tag <{tag}/>")
+        self.handle_starttag(tag, attrs)
+        if tag not in VOID_ELEMENTS and self.stack and self.stack[-1] == tag:
+            self.stack.pop()
 
     def handle_endtag(self, tag):
         if not self.stack:
